@@ -11,9 +11,20 @@ import pickle
 from fractions import Fraction
 
 import geom
-from common import CORPUS_DIR, Ctx, call, frac, rat, shrink_list
+import c06_dims
+from common import CORPUS_DIR, Ctx, InfraError, call, frac, rat, shrink_list
 
-RULE = ("four kinds of case (the fourth, meets: one polygon on the 1/16 grid x 5..9 shapes placed against it - sharing an edge, part of an edge, one vertex, strictly inside, around it, 1/16 or 1/256 off an edge, across an edge, circles, rotated rectangles; shapely intersects in both argument orders vs the exact predicates). net: 1..7 lanelets on the 1/16 grid (straight / curved strips in the four grid directions, arcs, "
+RULE = ("generator dimensions are tabulated in harness/c06_dims.py (173 entries: every constructor parameter, property and public method "
+        "of Lanelet, LaneletNetwork, Rectangle, Circle, Polygon, ShapeGroup and every parameter of the driven operations; checked against the "
+        "real signatures on every run, unknown name => exit 2). Beyond the description below: lanelets carry the non-geometric constructor "
+        "arguments, reach their final geometry / id also through translate_rotate, convert_to_2d or the lanelet_id setter before insertion, "
+        "ids 0 / 2**40 / numpy.int64; routes list-nocleanup, Scenario.add_objects(list | network), replace_lanelet_network; operations "
+        "Scenario.add_objects / remove_lanelet (single and list form, possibly failing half-way and caught), LaneletNetwork.translate_rotate "
+        "(exact), create_from_lanelet_network(exclude_lanelet_types, cleanup_ids), read-only probes between operations (deepcopy / pickle "
+        "discarded, queries, cleanup_*, convert_to_2d, a rejected add); point lists as arrays / python lists / integer arrays / empty / single; "
+        "the same shape object queried twice; a second network sharing the lanelet objects; shapes built with default / integer / numpy-scalar "
+        "arguments, through translate_rotate / rotate_translate_local, and with ONE attribute set after construction (before / after a "
+        "first query). four kinds of case (the fourth, meets: one polygon on the 1/16 grid x 5..9 shapes placed against it - sharing an edge, part of an edge, one vertex, strictly inside, around it, 1/16 or 1/256 off an edge, across an edge, circles, rotated rectangles; shapely intersects in both argument orders vs the exact predicates). net: 1..7 lanelets on the 1/16 grid (straight / curved strips in the four grid directions, arcs, "
         "adjacent lanes sharing a boundary, successors sharing an end edge, crossing (overlapping) and far-away lanelets), built by "
         "one of seven routes (create_from_lanelet_list, add_lanelet one by one, LaneletNetwork() left empty, Scenario.add_objects, "
         "XML file, protobuf file, open_lanelet_network), then 0..5 operations (add new / known id, remove known / unknown id, each "
@@ -37,6 +48,10 @@ ASSUMPTIONS = [
     "id once; the tree's envelope prefilter is modelled (treeMeets / treeWithin) and proved redundant (C06_tree_prefilter_sound)",
     "distinct live Python objects have distinct id(): the model gives every shapely polygon object an address and assumes (Adm) that an "
     "added lanelet brings a polygon object not yet in the network and that copies hand out fresh objects",
+    "3-D lanelets that were not converted with convert_to_2d are outside the (planar) property; references of a lanelet to traffic signs, "
+    "lights or areas that are not in the network are ill-formed input (C10) and not generated",
+    "histories in which a shape attribute is set after construction are judged by the oracle only (the model has no setters): they expose "
+    "the known findings C06/*/stale-after-setter/*",
     "index states left stale on request (add_lanelet / remove_lanelet with rtree=False and no later rebuild) are modelled and covered by the "
     "theorems but not queried: the property speaks about networks built in a supported way",
 ]
@@ -44,10 +59,16 @@ TRUSTED = ["harness/geom.py: exact rational point-in-polygon, polygon-polygon an
 REQUIRED_BUCKETS = ["net/route/list", "net/route/add", "net/route/empty", "net/route/scenario", "net/route/xml", "net/route/pb",
                     "net/route/pb-net", "net/op/deepcopy", "net/op/pickle", "net/op/add", "net/op/add-known", "net/op/remove",
                     "net/op/remove-unknown", "net/op/addFrom", "net/op/sc_remove-ok", "net/op/sc_remove-fails",
-                    "net/history/query-after-failed-op", "net/op/cut", "net/op/rtree-false", "net/point/on-boundary",
+                    "net/history/query-after-failed-op", "net/op/sc_add-ok", "net/op/sc_add-fails", "net/op/move", "net/op/cut-exclude-type",
+                    "net/op/sc_remove-no-referenced", "net/op/single-object-form", "net/route/list-nocleanup", "net/route/sc-list",
+                    "net/route/sc-net", "net/route/sc-replace", "net/lanelet/extras", "net/lanelet/pre-move", "net/lanelet/pre-z",
+                    "net/lanelet/pre-reid", "net/lanelet/id-class", "net/points/list", "net/points/int", "net/shared-lanelet-objects",
+                    "net/probe/deepcopy-discard", "net/probe/pickle-discard", "net/probe/convert2d", "net/probe/cleanup", "net/op/cut", "net/op/rtree-false", "net/point/on-boundary",
                     "net/point/multi", "net/point/none", "net/shape/circ", "net/shape/rect", "net/shape/poly", "net/shape/group",
                     "net/shape/multi", "net/shape/none", "net/shape/touching", "shape/rect", "shape/circ", "shape/poly", "shape/group",
-                    "shape/on-boundary", "obst/static", "obst/set", "obst/traj", "obst/group", "obst/hit", "obst/miss",
+                    "shape/on-boundary", "shape/variant/ints", "shape/variant/np", "shape/variant/defaults", "shape/variant/via-translate",
+                    "shape/variant/via-local", "shape/hist/after-query", "shape/hist/before-query", "shape/hist/Rectangle.center",
+                    "shape/hist/Circle.radius", "shape/hist/Polygon.vertices", "obst/static", "obst/set", "obst/traj", "obst/group", "obst/hit", "obst/miss", "obst/empty-candidate-list",
                     "meets/poly", "meets/rect", "meets/circ", "meets/touching", "meets/true", "meets/false"]
 
 BAND = Fraction(1, 10 ** 9)
@@ -257,14 +278,46 @@ def net_shapes(r, lanelets, k=8):
     return out
 
 
-ROUTES = ["list", "list", "add", "add", "empty", "scenario", "xml", "pb", "pb-net"]
+ROUTES = ["list", "list", "list-nocleanup", "add", "add", "empty", "scenario", "sc-list", "sc-net", "sc-replace", "xml", "pb", "pb-net"]
+FILE_ROUTES = ("xml", "pb", "pb-net")
+SC_ROUTES = ("scenario", "sc-list", "sc-net", "sc-replace", "xml", "pb")     # the network stays the one a Scenario owns
+PROBES = ["deepcopy-discard", "pickle-discard", "queries", "cleanup", "convert2d", "failed-add", "contains", "by-id"]
+
+
+def _shift(l, t):
+    return dict(l, left=[[p[0] + t[0], p[1] + t[1]] for p in l["left"]], right=[[p[0] + t[0], p[1] + t[1]] for p in l["right"]])
+
+
+def _decorate(r, l, ids, file_route):
+    """Adds the non-geometric arguments, a pre-insertion path and an id class to a lanelet spec."""
+    if r.random() < 0.6:
+        l["extras"] = gen_extras(r, [i for i in ids if i != l["id"]], file_route)
+    k = r.random()
+    if k < 0.15:
+        l["pre"] = {"move": [r.randint(-160, 160) / 16.0, r.randint(-160, 160) / 16.0]}
+    elif k < 0.25:
+        l["pre"] = {"z": True}
+    elif k < 0.35:
+        l["pre"] = {"reid": 900 + r.randint(0, 50)}
+    if not file_route and r.random() < 0.1:
+        l["idtype"] = "np"
+    return l
 
 
 def gen_net_case(r):
-    lanelets = _with_addr(gen_lanelets(r))
     route = r.choice(ROUTES)
+    file_route = route in FILE_ROUTES
+    lanelets = _with_addr(gen_lanelets(r))
+    if not file_route and lanelets and r.random() < 0.15:
+        lanelets[r.randrange(len(lanelets))]["id"] = r.choice([0, 2 ** 40])      # id value classes
+    if r.random() < 0.3:
+        r.shuffle(lanelets)
+    if r.random() < 0.1:                                                          # large magnitudes: still exact on the 1/16 grid
+        lanelets = [_shift(l, [65536.0, -32768.0]) for l in lanelets]
+    all_ids = [l["id"] for l in lanelets]
+    lanelets = [_decorate(r, l, all_ids, file_route) for l in lanelets]
     used = {l["id"] for l in lanelets}
-    if route in ("list", "add") and len(lanelets) >= 2 and r.random() < 0.1:
+    if route in ("list", "list-nocleanup", "add") and len(lanelets) >= 2 and r.random() < 0.1:
         lanelets[-1]["id"] = lanelets[0]["id"]              # a repeated id in the input list: skipped with a warning
     init = [] if route == "empty" else lanelets
     current = []
@@ -274,24 +327,29 @@ def gen_net_case(r):
     ops = []
     fresh = True
     gone = []                                                # lanelets that were removed: queried as well
-    has_sc = route in ("scenario", "xml", "pb")              # the network is still the one its Scenario owns
-    sc_ids = {c["id"] for c in current} if has_sc else set()  # ids the Scenario has registered
+    has_sc = route in SC_ROUTES                              # the network is still the one its Scenario owns
+    sc_reg = {c["id"] for c in current} if has_sc else set()  # ids the Scenario has registered
     spare = [] if route != "empty" else list(lanelets)
+
+    def new_lanelet(nid):
+        l = _with_addr(gen_lanelets(r, ids=[nid], nmax=1))[0]
+        if current and r.random() < 0.6:     # place it over an existing lanelet (overlap)
+            src = r.choice(current)
+            dx = r.choice([0.0, 1.0, 0.5])
+            l = dict(l, left=[[p[0] + dx, p[1] + dx] for p in src["left"]], right=[[p[0] + dx, p[1] + dx] for p in src["right"]])
+        return _decorate(r, l, [c["id"] for c in current], True)
+
     for _ in range(r.choice([0, 0, 1, 2, 3, 5]) + (2 if route == "empty" and r.random() < 0.7 else 0)):
-        kind = r.choice(["add", "add", "add-known", "remove", "remove", "remove-unknown", "addFrom", "deepcopy", "pickle", "cut"])
+        kind = r.choice(["add", "add", "add-known", "remove", "remove", "remove-unknown", "addFrom", "deepcopy", "pickle", "cut",
+                         "move", "probe", "probe"])
         if has_sc and r.random() < 0.5:
-            kind = "sc_remove"
+            kind = r.choice(["sc_remove", "sc_remove", "sc_add"])
         rtree = r.random() < 0.7
         if kind == "add":
             if spare:
                 l = spare.pop()
             else:
-                nid = r.choice([i for i in range(1, 500) if i not in used])
-                l = _with_addr(gen_lanelets(r, ids=[nid], nmax=1))[0]
-                if current and r.random() < 0.6:     # place it over an existing lanelet (overlap)
-                    src = r.choice(current)
-                    dx = r.choice([0.0, 1.0, 0.5])
-                    l = dict(l, left=[[p[0] + dx, p[1] + dx] for p in src["left"]], right=[[p[0] + dx, p[1] + dx] for p in src["right"]])
+                l = new_lanelet(r.choice([i for i in range(1, 500) if i not in used]))
             used.add(l["id"])
             ops.append({"op": "add", "l": l, "rtree": rtree})
             current.append(l)
@@ -301,24 +359,46 @@ def gen_net_case(r):
             l = _with_addr(gen_lanelets(r, ids=[src["id"]], nmax=1))[0]
             ops.append({"op": "add", "l": l, "rtree": rtree})          # rejected: no change, no rebuild
         elif kind == "sc_remove":
-            # Scenario.remove_lanelet with a list; an entry that is not (or no longer) in the scenario makes it raise
-            # KeyError after the earlier entries were removed; the error is caught and the history goes on
-            pres = [c["id"] for c in current if c["id"] in sc_ids]
+            # Scenario.remove_lanelet with one lanelet or a list; an entry that is not (or no longer) in the scenario makes it
+            # raise KeyError after the earlier entries were removed; the error is caught and the history goes on
+            pres = [c["id"] for c in current if c["id"] in sc_reg]
             absent = r.choice([i for i in range(1, 500) if i not in used])
-            former = [g["id"] for g in gone] or [absent]
+            former = [g["id"] for g in gone if g["id"] not in [c["id"] for c in current]] or [absent]
             r.shuffle(pres)
             p1 = pres[0] if pres else absent
             p2 = pres[1] if len(pres) > 1 else absent
-            ids = r.choice([[p1], [p1], [p1, p2], [p2, p1], [p1, p2], [p1, p1], [p1, absent], [p1, p2, p1], [absent, p1], [r.choice(former)],
-                            [p1, r.choice(former), p2], [p2, p1, absent]])
-            ops.append({"op": "sc_remove", "ids": ids, "as_list": len(ids) > 1 or r.random() < 0.5})
-            for k, i in enumerate(ids):
-                hit = [c for c in current if c["id"] == i and i in sc_ids]
+            ids = r.choice([[p1], [p1], [p1, p2], [p2, p1], [p1, p2], [p1, p1], [p1, absent], [p1, p2, p1], [absent, p1],
+                            [r.choice(former)], [p1, r.choice(former), p2], [p2, p1, absent]])
+            ops.append({"op": "sc_remove", "ids": ids, "as_list": len(ids) > 1 or r.random() < 0.5, "ref": r.random() < 0.7})
+            for i in ids:
+                hit = [c for c in current if c["id"] == i and i in sc_reg]
                 if not hit:
                     break
                 current = [c for c in current if c["id"] != i]
+                sc_reg.discard(i)
                 gone.extend(hit)
                 fresh = True                                   # every single removal rebuilds the index
+        elif kind == "sc_add":
+            # Scenario.add_objects with one lanelet or a list; an entry whose id the scenario has registered raises ValueError
+            # after the earlier entries were added
+            nids = r.sample([i for i in range(1, 500) if i not in used and i not in sc_reg], 3)
+            ls = [new_lanelet(i) for i in nids]
+            if sc_reg and r.random() < 0.5:
+                bad = _with_addr(gen_lanelets(r, ids=[r.choice(sorted(sc_reg))], nmax=1))[0]
+                ls = r.choice([[ls[0], bad, ls[1]], [bad, ls[0]], [ls[0], ls[1], bad]])
+            else:
+                ls = ls[:r.randint(1, 3)]
+            expect, n_ok = None, 0
+            for l in ls:
+                if l["id"] in sc_reg:
+                    expect = "value"
+                    break
+                n_ok += 1
+                sc_reg.add(l["id"])
+                used.add(l["id"])
+                current.append(l)
+                fresh = True
+            ops.append({"op": "sc_add", "ls": ls, "as_list": len(ls) > 1 or r.random() < 0.5, "expect": expect, "n_ok": n_ok})
         elif kind == "remove" and current:
             v = r.choice(current)
             gone.append(v)
@@ -337,18 +417,38 @@ def gen_net_case(r):
             ops.append({"op": "addFrom", "ls": ls})
             current.extend(ls)
             fresh = True
-        elif kind in ("deepcopy", "pickle", "cut"):
+        elif kind in ("deepcopy", "pickle"):
             ops.append({"op": kind})
             fresh = True
             has_sc = False
+        elif kind == "cut":
+            # create_from_lanelet_network: a copy; optionally without the lanelets of some type
+            types = sorted({t for c in current for t in (c.get("extras") or {}).get("lanelet_type", [])})
+            excl = [r.choice(types)] if types and r.random() < 0.5 else []
+            dropped = [c for c in current if set((c.get("extras") or {}).get("lanelet_type", [])) & set(excl)]
+            ops.append({"op": "cut", "exclude": excl, "cleanup": r.random() < 0.7, "drop": [c["id"] for c in dropped]})
+            gone.extend(dropped)
+            current = [c for c in current if c not in dropped]
+            fresh = True
+            has_sc = False
+        elif kind == "move" and (current or gone):
+            # LaneletNetwork.translate_rotate by a grid vector, angle 0: exact
+            t = [r.randint(-320, 320) / 16.0, r.randint(-320, 320) / 16.0]
+            ops.append({"op": "move", "t": t})
+            gone = gone + [dict(c) for c in current][:2]           # the old places are queried as well
+            current = [_shift(c, t) for c in current]
+            fresh = True
+        elif kind == "probe":
+            ops.append({"op": "probe", "what": r.choice(PROBES)})
     if not fresh:
         # the last change was made with rtree=False: finish with an operation that rebuilds the index
         nid = r.choice([i for i in range(1, 500) if i not in used])
         ops.append(r.choice([{"op": "remove", "id": nid, "rtree": True}, {"op": "addFrom", "ls": []}, {"op": "deepcopy"},
-                             {"op": "pickle"}]))
+                             {"op": "pickle"}, {"op": "move", "t": [0.0, 0.0]}]))
     geo = (current + gone[:3]) if (current or gone) else lanelets        # also where removed lanelets used to be
     return {"kind": "net", "route": route, "lanelets": init, "ops": ops, "pts": net_points(r, geo, r.choice([10, 20, 30])),
-            "shapes": net_shapes(r, geo, r.choice([4, 6, 10]))}
+            "shapes": net_shapes(r, geo, r.choice([4, 6, 10])),
+            "ptform": r.choice(["array", "array", "list", "int"]), "shared": route == "add" and r.random() < 0.4}
 
 
 def gen_shape_case(r):
@@ -364,7 +464,94 @@ def gen_shape_case(r):
         vs = spec["v"]
         xs, ys = [v[0] for v in vs], [v[1] for v in vs]
         pts += [[min(xs), min(ys)], [max(xs), max(ys)], [min(xs) - 0.0625, ys[0]], [xs[0], max(ys) + 0.0625]]
-    return {"kind": "shape", "shape": spec, "pts": pts}
+    case = {"kind": "shape", "shape": spec, "pts": pts}
+    k = spec["k"]
+    u = r.random()
+    if k in ("rect", "circ", "poly") and u < 0.25:
+        # a history: the shape is built differently, optionally queried, then ONE attribute is set; `shape` is what results
+        first = _other_value(r, spec)
+        attr = r.choice(sorted(first))
+        base = dict(spec)
+        base.update({attr: first[attr]})
+        case["hist"] = {"base": base, "query_first": r.random() < 0.6, "attr": attr}
+    elif k in ("rect", "circ") and u < 0.45:
+        case["variant"] = r.choice(["ints", "np", "defaults", "via-translate", "via-local"])
+        if case["variant"] == "ints":
+            spec.update({kk: float(max(1, round(spec[kk]))) for kk in ("l", "w", "r") if kk in spec})
+            spec["c"] = [float(round(spec["c"][0])), float(round(spec["c"][1]))]
+            if k == "rect":
+                spec["o"] = 0.0
+        elif case["variant"] == "defaults":
+            spec["c"] = [0.0, 0.0]
+            if k == "rect":
+                spec["o"] = 0.0
+        elif k == "rect":
+            spec["o"] = 0.0 if r.random() < 0.7 else spec["o"]
+        if case["variant"] in ("via-translate", "via-local"):
+            case["t"] = [r.randint(-320, 320) / 16.0, r.randint(-320, 320) / 16.0]
+            if k == "rect":
+                spec["o"] = 0.0
+        case["pts"] = geom.interesting_points(r, spec) + [[spec["c"][0] + 0.25, spec["c"][1]]]
+    elif k == "poly" and u < 0.4:
+        case["variant"] = "via-translate"
+        case["t"] = [r.randint(-320, 320) / 16.0, r.randint(-320, 320) / 16.0]
+    return case
+
+
+def _other_value(r, spec):
+    """For each settable attribute of the primitive a value different from the one in spec (spec key -> value)."""
+    k = spec["k"]
+    g = lambda: r.randint(-320, 320) / 16.0  # noqa
+    if k == "rect":
+        return {"c": [g(), g()], "l": spec["l"] + r.choice([0.5, 3.0]), "w": spec["w"] + r.choice([0.25, 2.0]),
+                "o": spec["o"] + (r.choice([0.5, 0.75]) if spec["o"] < 0 else -r.choice([0.5, 0.75]))}   # stays a valid orientation
+    if k == "circ":
+        return {"c": [g(), g()], "r": spec["r"] + r.choice([0.5, 3.0])}
+    return {"v": [[v[0] + 7.0, v[1] - 5.0] for v in spec["v"]]}
+
+
+_ATTR = {"rect": {"c": "center", "l": "length", "w": "width", "o": "orientation"}, "circ": {"c": "center", "r": "radius"},
+         "poly": {"v": "vertices"}}
+
+
+def build_shape_case(case):
+    """The shape object of a shape case: plain, through one of the value-class / alternative-construction variants, or
+    through a history (construct, maybe query, set one attribute).  Returns (shape, label of the history or None)."""
+    import numpy as np
+    from commonroad.geometry.shape import Circle, Rectangle
+    spec = case["shape"]
+    k = spec["k"]
+    hist = case.get("hist")
+    if hist:
+        shp = geom.build_shape(hist["base"])
+        if hist["query_first"]:
+            shp.contains_point(np.array([0.0, 0.0]))
+            _ = shp.shapely_object
+        val = spec[hist["attr"]]
+        name = _ATTR[k][hist["attr"]]
+        setattr(shp, name, np.array(val, dtype=float) if hist["attr"] in ("c", "v") else val)
+        return shp, f"{type(shp).__name__}.{name}"
+    var = case.get("variant")
+    if var == "ints":
+        c = np.array([int(spec["c"][0]), int(spec["c"][1])])
+        return (Rectangle(int(spec["l"]), int(spec["w"]), c, 0) if k == "rect" else Circle(int(spec["r"]), c)), None
+    if var == "np":
+        c = np.array(spec["c"], dtype=np.float64)
+        if k == "rect":
+            return Rectangle(np.float64(spec["l"]), np.float32(spec["w"]) if float(np.float32(spec["w"])) == spec["w"] else spec["w"],
+                             c, np.float64(spec["o"])), None
+        return Circle(np.float32(spec["r"]) if float(np.float32(spec["r"])) == spec["r"] else spec["r"], c), None
+    if var == "defaults":
+        return (Rectangle(spec["l"], spec["w"]) if k == "rect" else Circle(spec["r"])), None
+    if var in ("via-translate", "via-local"):
+        t = np.array(case["t"], dtype=float)
+        if k == "poly":
+            base = {"k": "poly", "v": [[v[0] - t[0], v[1] - t[1]] for v in spec["v"]]}
+        else:
+            base = dict(spec, c=[spec["c"][0] - t[0], spec["c"][1] - t[1]])
+        b = geom.build_shape(base)
+        return (b.translate_rotate(t, 0.0) if var == "via-translate" else b.rotate_translate_local(t, 0.0)), None
+    return geom.build_shape(spec), None
 
 
 def gen_obst_case(r):
@@ -431,10 +618,80 @@ def wire_lanelet(l):
 # ================================================================================================ implementation side
 
 def build_lanelet(l):
+    """The Lanelet of a spec.  Optional spec fields: "extras" (the non-geometric constructor arguments), "pre" (how the
+    object reaches its final geometry / id before it is inserted anywhere: "move" = built elsewhere and moved by an
+    exact Lanelet.translate_rotate, "z" = built from 3-D vertices and converted with convert_to_2d, "reid" = built with
+    another id that the lanelet_id setter then replaces), "idtype" ("np": numpy.int64 id)."""
     import numpy as np
+    from commonroad.common.common_lanelet import LaneletType, LineMarking, RoadUser, StopLine
     from commonroad.scenario.lanelet import Lanelet
     left, right = np.array(l["left"], dtype=float), np.array(l["right"], dtype=float)
-    return Lanelet(left, (left + right) / 2.0, right, l["id"])
+    pre = l.get("pre") or {}
+    if "move" in pre:
+        t = np.array(pre["move"], dtype=float)
+        left, right = left - t, right - t
+    if pre.get("z"):
+        z = np.linspace(1.0, 3.0, len(left)).reshape(-1, 1)
+        left, right = np.hstack([left, z]), np.hstack([right, z + 0.5])
+    ex = l.get("extras") or {}
+    kw = {}
+    for k in ("predecessor", "successor"):
+        if k in ex:
+            kw[k] = list(ex[k])
+    for k in ("adjacent_left", "adjacent_right", "adjacent_left_same_direction", "adjacent_right_same_direction"):
+        if k in ex:
+            kw[k] = ex[k]
+    for k in ("line_marking_left_vertices", "line_marking_right_vertices"):
+        if k in ex:
+            kw[k] = LineMarking[ex[k]]
+    if ex.get("stop_line"):
+        kw["stop_line"] = StopLine(np.array(left[-1][:2]), np.array(right[-1][:2]), LineMarking[ex["stop_line"]])
+    if "lanelet_type" in ex:
+        kw["lanelet_type"] = {LaneletType[x] for x in ex["lanelet_type"]}
+    for k in ("user_one_way", "user_bidirectional"):
+        if k in ex:
+            kw[k] = {RoadUser[x] for x in ex[k]}
+    lid = l["id"]
+    if l.get("idtype") == "np":
+        lid = np.int64(lid)
+    first_id = pre["reid"] if "reid" in pre else lid
+    la = Lanelet(left, (left + right) / 2.0, right, first_id, **kw)
+    if "reid" in pre:
+        la.lanelet_id = lid
+    if pre.get("z"):
+        la.convert_to_2d()
+    if "move" in pre:
+        la.translate_rotate(np.array(pre["move"], dtype=float), 0.0)
+    return la
+
+
+def gen_extras(r, ids, file_route):
+    """Non-geometric constructor arguments of a lanelet (none of them may influence a lookup)."""
+    ex = {}
+    others = list(ids)
+    if r.random() < 0.5 and others:
+        ex["predecessor"] = r.sample(others, min(len(others), r.randint(0, 2)))
+        ex["successor"] = r.sample(others, min(len(others), r.randint(0, 2)))
+        if not file_route and r.random() < 0.3:
+            ex["successor"] = ex["successor"] + [r.randint(600, 700)]          # dangling reference
+    if r.random() < 0.4 and others:
+        ex["adjacent_left"] = r.choice(others)
+        ex["adjacent_left_same_direction"] = r.random() < 0.5
+    if r.random() < 0.4 and others:
+        ex["adjacent_right"] = r.choice(others)
+        ex["adjacent_right_same_direction"] = r.random() < 0.5
+    if r.random() < 0.5:
+        ex["line_marking_left_vertices"] = r.choice(["DASHED", "SOLID", "CURB", "NO_MARKING", "UNKNOWN"])
+        ex["line_marking_right_vertices"] = r.choice(["DASHED", "SOLID", "BROAD_SOLID", "NO_MARKING"])
+    if r.random() < 0.3:
+        ex["stop_line"] = r.choice(["SOLID", "DASHED"])
+    if r.random() < 0.6:
+        ex["lanelet_type"] = r.sample(["URBAN", "HIGHWAY", "SIDEWALK", "BUS_LANE", "INTERSECTION"], r.randint(1, 2))
+    if r.random() < 0.4:
+        ex["user_one_way"] = r.sample(["VEHICLE", "CAR", "BUS", "BICYCLE"], r.randint(1, 2))
+    if r.random() < 0.2:
+        ex["user_bidirectional"] = r.sample(["PEDESTRIAN", "BICYCLE"], 1)
+    return ex
 
 
 def _quiet(f, *a, **k):
@@ -471,6 +728,19 @@ def build_network(ctx, route, lanelets):
     from commonroad.scenario.lanelet import LaneletNetwork
     if route == "list":
         return LaneletNetwork.create_from_lanelet_list([build_lanelet(l) for l in lanelets]), None
+    if route == "list-nocleanup":
+        return LaneletNetwork.create_from_lanelet_list([build_lanelet(l) for l in lanelets], cleanup_ids=False), None
+    if route in ("sc-list", "sc-net", "sc-replace"):
+        from commonroad.scenario.scenario import Scenario
+        sc = Scenario(0.1)
+        if route == "sc-list":
+            sc.add_objects([build_lanelet(l) for l in lanelets])
+        elif route == "sc-net":
+            sc.add_objects(LaneletNetwork.create_from_lanelet_list([build_lanelet(l) for l in lanelets]))
+        else:
+            sc.add_objects([_stray_lanelet(950), _stray_lanelet(951)])
+            sc.replace_lanelet_network(LaneletNetwork.create_from_lanelet_list([build_lanelet(l) for l in lanelets]))
+        return sc.lanelet_network, sc
     if route in ("add", "empty"):
         n = LaneletNetwork()
         for l in lanelets:
@@ -496,6 +766,41 @@ def _stray_lanelet(i):
     return build_lanelet({"id": i, "left": [[9000.0, 9002.0], [9010.0, 9002.0]], "right": [[9000.0, 9000.0], [9010.0, 9000.0]]})
 
 
+def _probe(n, what):
+    """Read-only (or idempotent) use of a network between two operations; nothing observable may change."""
+    import numpy as np
+    from commonroad.geometry.shape import Rectangle
+    if what == "deepcopy-discard":
+        copy.deepcopy(n)
+    elif what == "pickle-discard":
+        pickle.dumps(n)
+    elif what == "queries":
+        n.find_lanelet_by_position([np.array([0.0, 0.0]), np.array([3.5, 1.25])])
+        n.find_lanelet_by_shape(Rectangle(4.0, 2.0, np.array([1.0, 1.0]), 0.3))
+        _ = n.lanelet_polygons, [la.polygon.shapely_object.bounds for la in n.lanelets]
+    elif what == "cleanup":
+        n.cleanup_lanelet_references()
+        n.cleanup_traffic_light_references()
+        n.cleanup_traffic_sign_references()
+    elif what == "convert2d":
+        n.convert_to_2d()
+    elif what == "failed-add":
+        try:
+            n.add_lanelet("not a lanelet")
+        except AssertionError:
+            pass
+    elif what == "contains":
+        for la in n.lanelets:
+            la.contains_points(np.array([[0.0, 0.0], [1.0, 1.0]]))
+            la.convert_to_polygon()
+    elif what == "by-id":
+        for la in n.lanelets:
+            assert n.find_lanelet_by_id(la.lanelet_id) is la
+        assert n.find_lanelet_by_id(99999) is None
+    else:
+        raise ValueError(what)
+
+
 def apply_op(n, op, sc=None):
     """Apply one operation; returns (network, owning scenario or None, class of the exception the operation raised and we
     caught or None).  Only operations through the Scenario are allowed to raise (they are part of the history: the caller
@@ -519,25 +824,44 @@ def apply_op(n, op, sc=None):
                 objs[i] = n.find_lanelet_by_id(i) or _stray_lanelet(i)
         arg = [objs[i] for i in op["ids"]]
         try:
-            sc.remove_lanelet(arg if (len(arg) != 1 or op.get("as_list", True)) else arg[0])
+            sc.remove_lanelet(arg if (len(arg) != 1 or op.get("as_list", True)) else arg[0], op.get("ref", True))
         except Exception as e:  # noqa: the history goes on after the caller caught the error
             from common import err_class
             caught = err_class(e)
+    elif k == "sc_add":
+        if sc is None or sc.lanelet_network is not n:
+            raise ValueError("sc_add without the owning scenario")
+        objs = [build_lanelet(l) for l in op["ls"]]
+        try:
+            sc.add_objects(objs if (len(objs) != 1 or op.get("as_list", True)) else objs[0])
+        except Exception as e:  # noqa: the history goes on after the caller caught the error
+            from common import err_class
+            caught = err_class(e)
+    elif k == "move":
+        import numpy as np
+        n.translate_rotate(np.array(op["t"], dtype=float), 0.0)
+    elif k == "probe":
+        _probe(n, op["what"])
     elif k == "deepcopy":
         n, sc = copy.deepcopy(n), None
     elif k == "pickle":
         n, sc = pickle.loads(pickle.dumps(n)), None
     elif k == "cut":
-        n, sc = LaneletNetwork.create_from_lanelet_network(n), None
+        from commonroad.common.common_lanelet import LaneletType
+        excl = {LaneletType[x] for x in op.get("exclude", [])}
+        n, sc = LaneletNetwork.create_from_lanelet_network(n, None, excl or None, op.get("cleanup", True)), None
     else:
         raise ValueError(k)
     return n, sc, caught
 
 
 def model_ops(ops):
-    out = []
+    """Operations of a case as model operations; pos[i] = index of the model operation that stands for case operation i
+    (None: several / none)."""
+    out, pos = [], []
     for i, op in enumerate(ops):
         k = op["op"]
+        pos.append(len(out))
         if k == "add":
             out.append({"op": "add", "l": wire_lanelet(op["l"]), "rtree": op["rtree"]})
         elif k == "remove":
@@ -546,9 +870,21 @@ def model_ops(ops):
             out.append({"op": "addFrom", "ls": [wire_lanelet(l) for l in op["ls"]]})
         elif k == "sc_remove":
             out.append({"op": "scRemove", "ids": op["ids"]})
+        elif k == "sc_add":
+            pos[-1] = None
+            for l in op["ls"][:op["n_ok"]]:             # the entries before the one that raises are added one by one
+                out.append({"op": "add", "l": wire_lanelet(l), "rtree": True})
+        elif k == "move":
+            out.append({"op": "move", "t": [rat(op["t"][0]), rat(op["t"][1])], "shift": 100000 * (i + 1)})
+        elif k == "probe":
+            pos[-1] = None
+        elif k == "cut":
+            out.append({"op": "copy", "shift": 100000 * (i + 1)})
+            for lid in op.get("drop", []):
+                out.append({"op": "remove", "id": lid, "rtree": True})
         else:
             out.append({"op": "copy", "shift": 100000 * (i + 1)})
-    return out
+    return out, pos
 
 
 def impl_rings(n):
@@ -556,7 +892,7 @@ def impl_rings(n):
     out = {}
     for l in n.lanelets:
         vs = [list(map(float, p)) for p in l.right_vertices] + [list(map(float, p)) for p in l.left_vertices[::-1]]
-        out[l.lanelet_id] = geom.ring_of(vs)
+        out[int(l.lanelet_id)] = geom.ring_of(vs)
     return out
 
 
@@ -573,10 +909,26 @@ def run_net(ctx, case, model=True):
             ctx.tag("net/op/add")
         elif k == "remove":
             ctx.tag("net/op/remove")
+        elif k == "probe":
+            ctx.tag("net/probe/" + op["what"])
         else:
             ctx.tag("net/op/" + k)
         if op.get("rtree") is False:
             ctx.tag("net/op/rtree-false")
+        if k == "cut" and op.get("exclude"):
+            ctx.tag("net/op/cut-exclude-type")
+        if k == "sc_remove" and not op.get("ref", True):
+            ctx.tag("net/op/sc_remove-no-referenced")
+        if k in ("sc_remove", "sc_add") and not op.get("as_list", True):
+            ctx.tag("net/op/single-object-form")
+    for l in lanelets + [o["l"] for o in ops if o["op"] == "add"] + [x for o in ops if o["op"] == "sc_add" for x in o["ls"]]:
+        if l.get("extras"):
+            ctx.tag("net/lanelet/extras")
+        for kk in (l.get("pre") or {}):
+            ctx.tag("net/lanelet/pre-" + kk)
+        if l.get("idtype") == "np" or l["id"] in (0, 2 ** 40):
+            ctx.tag("net/lanelet/id-class")
+    ctx.tag("net/points/" + case.get("ptform", "array"))
     ctx.case(case)
 
     r = call(build_network, ctx, route, lanelets)
@@ -586,7 +938,21 @@ def run_net(ctx, case, model=True):
     n, sc = r[1]
     caught = []
     known = {l["id"] for l in lanelets} if route != "empty" else set()
-    nps = [np.array(p, dtype=float) for p in pts]
+    n2 = None
+    if case.get("shared") and route == "add" and not any(o["op"] == "move" for o in ops):
+        # the same Lanelet objects in a second network: whatever happens to the first must not disturb it
+        from commonroad.scenario.lanelet import LaneletNetwork
+        n2 = LaneletNetwork()
+        for la in n.lanelets:
+            n2.add_lanelet(la)
+        ctx.tag("net/shared-lanelet-objects")
+    ptform = case.get("ptform", "array")
+    if ptform == "list":
+        nps = [[float(p[0]), float(p[1])] for p in pts]
+    elif ptform == "int" and all(float(c).is_integer() for p in pts for c in p):
+        nps = [np.array([int(p[0]), int(p[1])]) for p in pts]
+    else:
+        nps = [np.array(p, dtype=float) for p in pts]
     if pts and ops:
         call(n.find_lanelet_by_position, nps)           # query -> mutate -> query
     for i, op in enumerate(ops):
@@ -602,22 +968,71 @@ def run_net(ctx, case, model=True):
             known.update(l["id"] for l in op["ls"])
         if op["op"] == "sc_remove":
             known.difference_update(op["ids"])
+        keep_ids = None
+        if op["op"] == "cut":
+            excl = set(op.get("exclude", []))
+            keep_ids = sorted(int(la.lanelet_id) for la in n.lanelets if not ({t.name for t in la.lanelet_type} & excl))
         r = call(apply_op, n, op, sc)
         if r[0] == "err":
             _fail(ctx, f"C06/op/{op['op']}/raises-{r[1]}", f"operation {i} ({op['op']}) raises {r[2]}", case)
             return
         n, sc, c = r[1]
         caught.append(c)
-        if op["op"] == "sc_remove":
-            ctx.tag("net/op/sc_remove-fails" if c else "net/op/sc_remove-ok")
-            if c and i + 1 == len(ops):
+        if keep_ids is not None and sorted(int(la.lanelet_id) for la in n.lanelets) != keep_ids:
+            _fail(ctx, "C06/create_from_lanelet_network/wrong-lanelets", f"create_from_lanelet_network(exclude_lanelet_types="
+                  f"{op.get('exclude')}) holds {sorted(int(la.lanelet_id) for la in n.lanelets)}, lanelets without an excluded type: "
+                  f"{keep_ids}", dict(case, ops=ops[:i + 1], pts=[], shapes=[]))
+        if op["op"] in ("sc_remove", "sc_add"):
+            ctx.tag(f"net/op/{op['op']}-fails" if c else f"net/op/{op['op']}-ok")
+            if c and all(o["op"] == "probe" for o in ops[i + 1:]):
                 ctx.tag("net/history/query-after-failed-op")
+        if op["op"] == "sc_add" and c != op["expect"]:
+            _fail(ctx, "C06/op/sc_add/unexpected-outcome", f"Scenario.add_objects of lanelets {[x['id'] for x in op['ls']]}: raised "
+                  f"{c}, expected {op['expect']} (ids registered in the scenario decide)", case)
+
+    # ---- the polygon of every lanelet is its right boundary followed by the reversed left boundary; lanelet_polygons lists them
+    for la in n.lanelets:
+        want = [tuple(map(float, v[:2])) for v in la.right_vertices] + [tuple(map(float, v[:2])) for v in la.left_vertices[::-1]]
+        got = [tuple(map(float, v[:2])) for v in la.polygon.shapely_object.exterior.coords]
+        if got[:-1] != want and got != want:
+            _fail(ctx, "C06/lanelet.polygon/ring-differs", f"lanelet {la.lanelet_id}: polygon ring {got} is not right boundary + reversed "
+                  f"left boundary {want}", case)
+        if la.convert_to_polygon() is not la.polygon:
+            _fail(ctx, "C06/lanelet.polygon/convert_to_polygon-differs", f"lanelet {la.lanelet_id}: convert_to_polygon() is not polygon", case)
+    if [id(x) for x in n.lanelet_polygons] != [id(la.polygon) for la in n.lanelets]:
+        _fail(ctx, "C06/lanelet_polygons/differs", "lanelet_polygons is not the list of the lanelets' polygons", case)
+    if n2 is not None:
+        rings2 = impl_rings(n2)
+        r2 = call(n2.find_lanelet_by_position, nps) if pts else ("ok", [])
+        if r2[0] == "err":
+            _fail(ctx, f"C06/shared/find_lanelet_by_position/raises-{r2[1]}", f"second network sharing the lanelet objects: {r2[2]}", case)
+        else:
+            for p, got in zip(pts, r2[1]):
+                q = (frac(p[0]), frac(p[1]))
+                st = {i: geom.ring_point(q, rings2[i], BAND) for i in rings2}
+                want = sorted(i for i in st if st[i][0] and not st[i][2])
+                got = sorted(int(g) for g in got if not st[int(g)][2])
+                if got != want:
+                    _fail(ctx, "C06/shared/find_lanelet_by_position/wrong", f"a second network holding the same lanelet objects answers "
+                          f"{got} for {p}, its lanelets containing the point: {want}", dict(case, pts=[p], shapes=[]))
 
     rings = impl_rings(n)
     ids = sorted(rings)
 
     # ---- find_lanelet_by_position
+    r0 = call(n.find_lanelet_by_position, [])
+    if r0[0] == "err":
+        _fail(ctx, f"C06/find_lanelet_by_position/raises-{r0[1]}/empty-point-list", f"find_lanelet_by_position([]) raises {r0[2]}",
+              dict(case, pts=[], shapes=[]))
+    elif r0[1] != []:
+        _fail(ctx, "C06/find_lanelet_by_position/empty-point-list-nonempty", f"find_lanelet_by_position([]) = {r0[1]}",
+              dict(case, pts=[], shapes=[]))
     r = call(n.find_lanelet_by_position, nps) if pts else ("ok", [])
+    if pts and r[0] == "ok":
+        r1 = call(n.find_lanelet_by_position, nps[:1])
+        if r1[0] == "err" or sorted(map(int, r1[1][0])) != sorted(map(int, r[1][0])):
+            _fail(ctx, "C06/find_lanelet_by_position/single-point-differs", f"the first point alone: {r1[1:]}, in the list: {r[1][0]}",
+                  dict(case, pts=pts[:1], shapes=[]))
     impl_pos, want_pos, masks_pos = None, [], []
     for p in pts:
         q = (frac(p[0]), frac(p[1]))
@@ -720,6 +1135,10 @@ def run_net(ctx, case, model=True):
                      dict(case, pts=[], shapes=[spec]))
             continue
         impl_sh.append({"ok": sorted(int(g) for g in rr[1] if int(g) not in amb_code)})
+        rr2 = call(n.find_lanelet_by_shape, shp)           # the same shape object once more (cached exported geometry)
+        if rr2[0] == "err" or sorted(map(int, rr2[1])) != sorted(map(int, rr[1])):
+            _fail(ctx, f"C06/find_lanelet_by_shape/second-query-differs/{spec['k']}", f"shape {spec}: first answer {rr[1]}, second "
+                  f"{rr2[1:]}", dict(case, pts=[], shapes=[spec]))
         got = sorted(int(g) for g in rr[1] if int(g) not in amb)
         if got != want:
             miss, extra = sorted(set(want) - set(got)), sorted(set(got) - set(want))
@@ -753,9 +1172,11 @@ def run_net(ctx, case, model=True):
 
     # ---- correspondence with the Lean model
     if model:
-        init = {"fromList": [wire_lanelet(l) for l in lanelets], "shift": 50000} if route in ("list", "xml") else {}
-        mops = model_ops(ops)
-        if route not in ("list", "xml"):
+        from_list = route in ("list", "list-nocleanup", "xml", "sc-net", "sc-replace")
+        init = {"fromList": [wire_lanelet(l) for l in lanelets], "shift": 50000} if from_list else {}
+        mops, pos = model_ops(ops)
+        if not from_list:
+            pos = [None if x is None else x + len(lanelets) for x in pos]
             mops = [{"op": "add", "l": wire_lanelet(l), "rtree": True} for l in lanelets] + mops
         m = ctx.driver.ask("C06", "net", {"tol": rat(TOL), "init": init, "ops": mops, "pts": wire_pts(pts),
                                           "shapes": [wire_shape(s) for s in shapes]})
@@ -767,8 +1188,11 @@ def run_net(ctx, case, model=True):
             msh = []
             for ans, amb in zip(mm["shape"], masks_sh):
                 msh.append({"ok": sorted(i for i in ans["ok"] if i not in amb)} if "ok" in ans else ans)
-            m = {"ids": sorted(mm["ids"]), "pos": mpos, "shape": msh, "caught": mm["caught"][len(mm["caught"]) - len(ops):]}
-        ctx.compare(case, {"ids": ids, "pos": impl_pos, "shape": impl_sh, "caught": caught}, m, "LaneletNetwork lookups vs CR.Index.findByPosition/findByShape")
+            # exceptions raised and caught: the model predicts them for Scenario.remove_lanelet (other operations: none)
+            mc = [mm["caught"][x] if (x is not None and o["op"] == "sc_remove") else None for x, o in zip(pos, ops)]
+            m = {"ids": sorted(mm["ids"]), "pos": mpos, "shape": msh, "caught": mc}
+        impl_caught = [c if o["op"] == "sc_remove" else None for c, o in zip(caught, ops)]
+        ctx.compare(case, {"ids": ids, "pos": impl_pos, "shape": impl_sh, "caught": impl_caught}, m, "LaneletNetwork lookups vs CR.Index.findByPosition/findByShape")
 
 
 def _spec_ring(spec):
@@ -791,12 +1215,19 @@ def run_shape(ctx, case, model=True):
     import numpy as np
     spec, pts = case["shape"], case["pts"]
     ctx.tag("shape/" + spec["k"])
+    if case.get("variant"):
+        ctx.tag("shape/variant/" + case["variant"])
     ctx.case(case)
-    r = call(geom.build_shape, spec)
+    r = call(build_shape_case, case)
     if r[0] == "err":
-        _fail(ctx, f"C06/shape/construct/raises-{r[1]}/{spec['k']}", f"constructing {spec} raises {r[2]}", case)
+        _fail(ctx, f"C06/shape/construct/raises-{r[1]}/{spec['k']}", f"constructing {spec} ({case.get('variant') or case.get('hist')}) "
+              f"raises {r[2]}", case)
         return
-    shp = r[1]
+    shp, hist = r[1]
+    if hist:
+        ctx.tag("shape/hist/" + hist)
+        ctx.tag("shape/hist/after-query" if case["hist"]["query_first"] else "shape/hist/before-query")
+        model = False               # the model has no attribute setters: the oracle judges histories
     impl, mask, impl_exp, mask_exp = [], [], [], []
     kk = kind_key(spec)
     kke = lambda p: kind_key(spec, lambda sp: geom.point_in_exported(sp, p, BAND))  # noqa
@@ -819,8 +1250,9 @@ def run_shape(ctx, case, model=True):
             if amb:
                 ctx.excluded += 1
             elif got != member:
-                _fail(ctx, f"C06/contains_point/{'misses' if member else 'reports'}/{kk}", f"{spec}.contains_point({p}) = {got}, the set "
-                         f"it denotes {'contains' if member else 'does not contain'} the point", sub)
+                key = f"C06/contains_point/stale-after-setter/{hist}" if hist else f"C06/contains_point/{'misses' if member else 'reports'}/{kk}"
+                _fail(ctx, key, f"{spec}{' (after ' + hist + ' = ...)' if hist else ''}.contains_point({p}) = {got}, the set "
+                         f"it denotes {'contains' if member else 'does not contain'} the point", dict(case, pts=[p]))
         re_ = call(_exported_contains, shp, p)
         if re_[0] == "err":
             _fail(ctx, f"C06/shapely_object/raises-{re_[1]}/{kk}", f"{spec}.shapely_object raises {re_[2]}", sub)
@@ -835,7 +1267,9 @@ def run_shape(ctx, case, model=True):
             what = "misses" if emember else "reports"
             if emember and geom.has_circle(spec) and geom.point_in_exported(spec, p, BAND, circ_scale=CODE_CIRC_SCALE) == (True, False):
                 what = "misses-within-half-radius"
-            _fail(ctx, f"C06/shapely_object/{what}/{kke(p)}", f"exported geometry of {spec} "
+            stale = hist and not (what == "misses" and geom.has_circle(spec))      # a plain circle miss is the known r/2 export
+            _fail(ctx, f"C06/shapely_object/stale-after-setter/{hist}" if stale else f"C06/shapely_object/{what}/{kke(p)}",
+                  f"exported geometry of {spec}{' (after ' + hist + ' = ...)' if hist else ''} "
                      f"{'contains' if re_[1] else 'does not contain'} {p}, the set the shape denotes {'does' if emember else 'does not'}", sub)
     if model:
         a = {"shape": wire_shape(spec), "pts": wire_pts(pts)}
@@ -936,6 +1370,12 @@ def run_obst(ctx, case, model=True):
                 ctx.tag("obst/hit" if tr else "obst/miss")
     sub = lambda i, k: dict(case, lanelets=[l for l in lanelets if l["id"] == i] or lanelets, obs=[o for o in obs if o["id"] == k])  # noqa
     kko = lambda i, k: kind_key(specs[k], lambda sp: geom.shape_meets_ring(sp, rings[i], exported=True, band=BAND))  # noqa
+
+    # value class: no candidates at all
+    r0 = call(lambda: ([la.get_obstacles([], t) for la in n.lanelets], n.map_obstacles_to_lanelets([]), n.filter_obstacles_in_network([])))
+    if r0[0] == "err" or any(x for x in r0[1][0]) or r0[1][1] != {} or r0[1][2] != []:
+        _fail(ctx, "C06/obstacles/empty-candidate-list", f"with no candidate obstacle: {r0[1:]}", dict(case, obs=[]))
+    ctx.tag("obst/empty-candidate-list")
 
     impl_get = []
     for l in n.lanelets:
@@ -1172,7 +1612,19 @@ def run_case(ctx, case, model=True):
         run_obst(ctx, case, model)
 
 
+def check_dimensions():
+    """The table of harness/c06_dims.py must know every constructor parameter, property and public method of the anchored
+    classes and every parameter of the driven operations: code growth must not escape the generator silently."""
+    unknown, stale = c06_dims.check()
+    if stale:
+        import sys
+        print(f"C06 dimension table: entries the code no longer has: {stale}", file=sys.stderr)
+    if unknown:
+        raise InfraError(f"C06 dimension table (harness/c06_dims.py) does not know {unknown}: decide how the generator varies them")
+
+
 def run(ctx):
+    check_dimensions()
     for p in sorted(glob.glob(os.path.join(CORPUS_DIR, "C06", "*.json"))):
         run_case(ctx, json.load(open(p)))
     r = ctx.rng
